@@ -111,6 +111,19 @@ def check(case):
         require(ok, "prim2cons", "prim2cons component %d differs from the definition (rel err %.3g)" % (i, err))
     for x, y in zip(pin, prim):
         require(np.array_equal(x, y), "prim2cons-mutates-input", "prim2cons modified its argument")
+    # the same numbers handed over as strided views of larger arrays give the same bits (both conversions)
+    def _view(x):
+        x = np.asarray(x, dtype=float)
+        big = np.full(x.shape[:-1] + (2 * x.shape[-1] + 1,), 0.625)
+        big[..., 1::2] = x
+        return big[..., 1::2]
+    qv = model.prim2cons([_view(x) for x in pin])
+    for i, (a, b) in enumerate(zip(qv, q)):
+        require(np.array_equal(np.asarray(a, dtype=float), np.asarray(b, dtype=float)), "prim2cons-views", "prim2cons component %d differs when the state is given as strided views of the same numbers" % i)
+    pv = model.cons2prim([_view(x) for x in q])
+    pc = model.cons2prim([np.array(x, dtype=float, copy=True) for x in q])
+    for i, (a, b) in enumerate(zip(pv, pc)):
+        require(np.array_equal(np.asarray(a, dtype=float), np.asarray(b, dtype=float)), "cons2prim-views", "cons2prim component %d differs when the data are given as strided views of the same numbers" % i)
     # round trip prim -> cons -> prim
     qq = [np.array(x, dtype=float) for x in cons_ref]
     back = model.cons2prim([x.copy() for x in qq])
